@@ -41,6 +41,9 @@ impl GlobalData {
 pub trait Expression {
     spec fn kind(&self) -> NodeKind;
 
+    /// identity of the parsed expression (its tree), preserved by copies
+    spec fn shape(&self) -> int;
+
     fn execute(&self, context: &mut GlobalData, allow_undefined: bool) -> (r: ExpressionResult)
         ensures
             final(context).errors() == old(context).errors(),
@@ -56,6 +59,8 @@ impl Expression for ExpressionAssign {
     open spec fn kind(&self) -> NodeKind {
         NodeKind::Assign
     }
+
+    uninterp spec fn shape(&self) -> int;
 
     #[verifier::external_body]
     fn execute(&self, context: &mut GlobalData, allow_undefined: bool) -> (r: ExpressionResult) {
@@ -80,6 +85,8 @@ impl Expression for ExpressionAssignUndefined {
         NodeKind::AssignUndefined
     }
 
+    uninterp spec fn shape(&self) -> int;
+
     #[verifier::external_body]
     fn execute(&self, context: &mut GlobalData, allow_undefined: bool) -> (r: ExpressionResult) {
         unimplemented!()
@@ -95,10 +102,48 @@ impl ExpressionAssignUndefined {
 
 pub struct RFsmExpressionDatamodel {
     pub global_data: GlobalData,
+    pub compilations: HashMap<usize, Box<dyn Expression>>,
+}
+
+/// what the parser makes of a source text: the expression's identity, or an error (a function of the text alone)
+pub uninterp spec fn parse_of(text: Seq<char>) -> Result<int, ()>;
+
+/// the text the document associates with a source id (ids are handed out once per expression text by the readers)
+pub uninterp spec fn text_of(id: usize) -> Seq<char>;
+
+/// the compilation cache holds, under each id, a copy of what parsing that id's text yields
+pub open spec fn cache_ok(m: Map<usize, Box<dyn Expression>>) -> bool {
+    forall|id: usize| m.contains_key(id) ==> parse_of(text_of(id)) == Ok::<int, ()>((#[trigger] m[id]).shape())
+}
+
+pub struct ExpressionParser {}
+
+impl ExpressionParser {
+    /// src/expression_engine/parser.rs (units lexer, parser): here only "a function of the text"
+    #[verifier::external_body]
+    pub fn parse(text: String) -> (r: Result<Box<dyn Expression>, String>)
+        ensures
+            match r {
+                Ok(e) => parse_of(text@) == Ok::<int, ()>(e.shape()),
+                Err(_) => parse_of(text@) is Err,
+            },
+    {
+        unimplemented!()
+    }
 }
 
 /// what an assignment attempt may leave in the log: nothing (an operand did not parse) or exactly one executed node
 pub open spec fn assign_logged(g0: GlobalData, g1: GlobalData, may_create: bool, r: bool) -> bool {
     let want = ExecRec { kind: if may_create { NodeKind::AssignUndefined } else { NodeKind::Assign }, may_create: may_create, ok: r };
     (g1.executed() == g0.executed() && !r) || g1.executed() == g0.executed().push(want)
+}
+
+/// R19: `e.get_copy()` (Expression::get_copy): a deep copy of the expression tree
+#[verifier::external_body]
+pub fn verif_get_copy(e: &Box<dyn Expression>) -> (r: Box<dyn Expression>)
+    ensures
+        r.shape() == e.shape(),
+        r.kind() == e.kind(),
+{
+    unimplemented!()
 }
